@@ -1,4 +1,5 @@
 import KpModel.Db.MergeLemmas
+import KpModel.Db.MergeInv
 import KpModel.Db.MergeSpec
 /-!
 # C14 — merge keeps the newest version of every node and every historical version
@@ -159,5 +160,22 @@ theorem group_merge_lww (now : Int) (du dc : Nat) (dt : Times) (su sc : Nat) (st
 def C14_full (WellFormedPair : Db → Db → Prop) : Prop :=
   ∀ (now : Int) (a b r : Db) (evs : List Event), WellFormedPair a b → merge now a b = .ok (r, evs) →
     Kp.MergeSpec.c14Clauses a b r = [] ∧ Kp.MergeSpec.c14Created a b r = []
+
+/-- **C14 (what exists only in the source is created)**: every entry and group of the source for which the destination has no
+    tombstone — neither for the node itself nor for a group above it in the source (`liveL`) — is below the root of what `merge`
+    returns, unless the result carries a tombstone for it (the source deleted it later in the same merge).  The group passes
+    never remove a UUID (`mergeGroup_le`), the first pass reaches every such node, and a deletion pass removes a node only
+    together with recording its tombstone.  For every destination that is a group with pairwise distinct UUIDs below it. -/
+theorem C14_source_nodes_created (now : Int) (dst src d' : Db) (evs : List Event) (hr : dst.root.isGroup = true)
+    (hn : (uuidsL dst.root.children).Nodup) (h : merge now dst src = .ok (d', evs)) :
+    ∀ u ∈ liveL dst.tombs src.root.children, u ∈ uuidsL d'.root.children ∨ tombsContain d'.tombs u = true :=
+  merge_creates now dst src d' evs ⟨hr, hn⟩ h
+
+/-- **C14 (nothing of the destination is lost by the group passes)**: a node of the destination is below the root of the
+    result or has a tombstone there -/
+theorem C14_destination_nodes_kept (now : Int) (dst src d' : Db) (evs : List Event) (hr : dst.root.isGroup = true)
+    (hn : (uuidsL dst.root.children).Nodup) (h : merge now dst src = .ok (d', evs)) :
+    ∀ u ∈ uuidsL dst.root.children, u ∈ uuidsL d'.root.children ∨ tombsContain d'.tombs u = true :=
+  merge_keeps now dst src d' evs ⟨hr, hn⟩ h
 
 end Kp.Merge
